@@ -95,10 +95,15 @@ def coq_make(jobs=16, timeout=3000):
 
 
 def vo_ok(rel):
-    """The .vo exists and is not older than its source."""
-    v = os.path.join(COQ, rel)
-    vo = v + "o"
-    return os.path.exists(vo) and os.path.getmtime(vo) >= os.path.getmtime(v)
+    """The .vo exists and is up to date with respect to ALL its dependencies
+    (asked of make itself, so a proof that failed to rebuild is noticed even if an
+    older .vo is still lying around)."""
+    vo = os.path.join(COQ, rel + "o")
+    if not os.path.exists(vo):
+        return False
+    with Lock("coq"):
+        rc, _ = sh(["make", "-q", rel + "o"], cwd=COQ, timeout=300)
+    return rc == 0
 
 
 def audit():
